@@ -282,6 +282,27 @@ def check_frame(d, with_reference=True):
         wit.append({'clause': 'tcp-writer-differs', 'detail': {'frame': _brief(d),
                                                                'first_diff_at': _first_diff(full, tcp),
                                                                'len': (len(full), len(tcp))}})
+    # a frame object that was already encoded once (or decoded from the wire) and whose payload was assigned
+    # afterwards is a frame value like any other: its incremental form must state the length it has now
+    if isinstance(d.get('data'), (bytes, bytearray)):
+        d2 = dict(d, data=bytes(d['data'])[:len(d['data']) // 2] if len(d['data']) > 8 else bytes(d['data']) + b'+7bytes')
+        try:
+            full2 = F.serialize_with_frame_size_header(libcodec.build(d2))
+            for label, obj in (('encoded-before', libcodec.build(d)), ('decoded', g)):
+                if label == 'encoded-before':
+                    obj.serialize()
+                obj.data = d2['data']
+                chunks = [bytes(F.serialize_prefix_with_frame_size_header(obj))]
+                obj.write_data_metadata(lambda c: chunks.append(bytes(c)))
+                inc2 = b''.join(chunks)
+                st['reused'] = st.get('reused', 0) + 1
+                if inc2 != full2:
+                    wit.append({'clause': 'incremental-differs-on-reused-frame-object',
+                                'detail': {'frame': _brief(d), 'object': label, 'new_data_len': len(d2['data']),
+                                           'first_diff_at': _first_diff(full2, inc2), 'len': (len(full2), len(inc2))}})
+        except Exception as e:
+            wit.append({'clause': 'codec-raises-on-in-range-value', 'detail': {'frame': _brief(d), 'reused': True,
+                                                                              'error': repr(e)}})
     if with_reference:
         try:
             ref = dict(expected)
